@@ -23,7 +23,10 @@ def _run(args):
     limit = args[3] if len(args) > 3 else 1
     from harness import ipreq_driver as D
     rng = random.Random(seed)
-    r = D.random_run(rng, rid, nsteps=nsteps, limit=limit)
+    if rid.startswith("race"):
+        r = D.cancel_race_run(rng, rid, variant=nsteps, limit=limit)
+    else:
+        r = D.random_run(rng, rid, nsteps=nsteps, limit=limit)
     try:
         rec = r.record(rid)
         rec["loop_exceptions"] = [e for e in r.loop_exceptions if "pop from empty list" not in e][:5]
@@ -46,7 +49,7 @@ def run(ctx):
     # vacuity guard: every action fires in a short random exploration of the richest configuration
     ctx.tlc("ip/IpReq", "IpReq_MC.cfg", simulate="num=4000", depth=40, seed=ctx.seed, workers=4,
             label="simulate with coverage (vacuity guard)", timeout=600)
-    ctx.tlc("ip/IpReq", "IpReq_MCq_L2.cfg", label="exhaustive request plane, semaphore capacity 2 (plain connection class)",
+    ctx.tlc("ip/IpReq", ctx.pick("IpReq_MCq_L2.cfg", "IpReq_MCt_L2.cfg"), label="exhaustive request plane, semaphore capacity 2 (plain connection class)",
             timeout=1800, coverage=False, require_cover=False)
     ctx.tlc("ip/IpReq", "IpReq_Live.cfg", label="liveness NoHang under fairness", timeout=900, coverage=False, require_cover=False)
     n = ctx.pick(400, 6000)
@@ -69,6 +72,8 @@ def run(ctx):
     # the plain connection class with concurrency_limit = 2: several requests outstanding on one socket
     n2 = ctx.pick(250, 3000)
     jobs2 = [(ctx.seed * 999983 + i, f"lim{i}", [20, 30, 45][i % 3], 2) for i in range(n2)]
+    # directed: a response already readable when its caller is cancelled in the same loop iteration (6 variants)
+    jobs2 += [(ctx.seed * 999979 + i, f"race{i}", i % 6, 2) for i in range(ctx.pick(60, 600))]
     with mp.get_context("fork").Pool(min(16, os.cpu_count() or 4)) as pool:
         recs2 = pool.map(_run, jobs2, chunksize=16)
     for r in recs2:
@@ -94,16 +99,22 @@ def _replay(ctx):
         return
     rec = obj.get("record") or {}
     rid = str(rec.get("id", ""))
-    m = re.match(r"req(\d+)$", rid)
+    m = re.match(r"(req|lim|race)(\d+)$", rid)
     fresh = None
+    cfg = "IpReq_Trace.cfg"
     if m:
-        i = int(m.group(1))
-        fresh = _run((seed * 1000003 + i, rid, [20, 30, 45][i % 3]))
+        i = int(m.group(2))
+        if m.group(1) == "req":
+            fresh = _run((seed * 1000003 + i, rid, [20, 30, 45][i % 3]))
+        elif m.group(1) == "lim":
+            fresh, cfg = _run((seed * 999983 + i, rid, [20, 30, 45][i % 3], 2)), "IpReq_Trace_L2.cfg"
+        else:
+            fresh, cfg = _run((seed * 999979 + i, rid, i % 6, 2)), "IpReq_Trace_L2.cfg"
     use = fresh or rec
     ctx.notes["replayed"] = "re-executed" if fresh else "recorded trace re-validated"
     ctx.case(json.dumps(use.get("events", [])))
     ctx.sample({"replayed_trace_prefix": use.get("events", [])[:25]})
-    rej = tracecheck.validate(ctx, "ip/IpReq_Trace", "IpReq_Trace.cfg", [use], label="replay")
+    rej = tracecheck.validate(ctx, "ip/IpReq_Trace", cfg, [use], label="replay")
     for j in rej:
         ctx.violation(f"replayed execution {rid} is rejected: "
                       + (f"invariant {j['invariant']} violated" if j.get("invariant") else f"event #{j['maxl']} {j['event']} cannot be explained"),
